@@ -16,7 +16,7 @@ use tokio::sync::mpsc;
 pub static DEF: PropDef = PropDef {
     id: "C20",
     level: "exploration",
-    rule: "message sequences over {request(peer, non-empty room set), unlock(room), end-of-connection(peer)} sent to the real RoomLockService on a current-thread runtime (message order = schedule); exhaustive up to the stated length for small (peers, rooms, limit), random longer ones beyond; a sequence is non-trivial when at least one request had to wait (room held by another connection or limit reached) and was granted later; distinct = distinct (configuration, sequence). Full-stack half (c20s.rs): a real Discret with 1-3 rooms and limit 1-2; harness-played member peers connect over the NewConnection seam, prove their identity, announce the rooms and answer the first query of every room synchronisation with the instance's own summary, the same after a delay, a failure, or the end of the connection; connections are ended and re-opened at random, on the same or a new circuit; the hooked event log (sync_begin / sync_end / cleanup_unlock per connection) must show no room synchronised by two connections at once, never more open synchronisations than the limit, every begun synchronisation ended once the connections are gone, and a fresh connection on a fresh circuit is granted every room within 20 s",
+    rule: "message sequences over {request(peer, non-empty room set), unlock(room), end-of-connection(peer)} sent to the real RoomLockService on a current-thread runtime (message order = schedule); exhaustive up to the stated length for small (peers, rooms, limit), random longer ones beyond; a sequence is non-trivial when at least one request had to wait (room held by another connection or limit reached) and was granted later; distinct = distinct (configuration, sequence). Full-stack half (c20s.rs): a real Discret with 1-3 rooms and limit 1-2; harness-played member peers connect over the NewConnection seam, prove their identity, announce the rooms and answer the first query of every room synchronisation with the instance's own summary, the same after a delay, a failure, or the end of the connection; connections are ended and re-opened at random, on the same or a new circuit; the hooked event log (sync_begin / sync_end / cleanup_unlock per connection) must show no room synchronised by two connections at once, never more open synchronisations than the limit, every begun synchronisation ended once the connections are gone, and every begun synchronisation has ended at most 90 s after the last connection is gone, and a fresh connection on a fresh circuit is granted every room within 60 s",
     assumptions: &[
         "the lock service is an actor whose only suspension point is its empty inbox (checked: a sequence is replayed with extra yields and must give the same grants)",
         "releases are sent by the connection that holds the room, as the library's synchronisation task and connection clean-up do",
